@@ -26,6 +26,7 @@ class C15(Property):
     ID = "C15"
     SESSIONS = ["s0", "s1"]
     RUNS = {"quick": (5000, 4000), "thorough": (100000, 80000)}
+    MUST_REACH = {"probes": ["foreign_stack", "single_index_file", "argument_object_reused", "recovery_after_fault"], "faults": ["crash", "enospc", "eio_write", "eio_read", "short_write", "short_read", "eintr", "open_fail"]}
 
     def config(self, rng, tier, faulty):
         cfg = {
